@@ -4,6 +4,8 @@ package main
 
 import (
 	"bytes"
+	"crypto/sha1"
+	"encoding/hex"
 	"fmt"
 	"reflect"
 	"runtime/debug"
@@ -132,6 +134,10 @@ func opHistory(t Task) Result {
 	}
 	p := doParse(src, ver, true)
 	fp0 := deepFingerprint(p.root)
+	outs := map[string]string{}
+	for op, o := range base {
+		outs[op] = shortHash(o)
+	}
 	for i, op := range hist {
 		out := observe(op, p.root)
 		if out != base[op] {
@@ -149,7 +155,12 @@ func opHistory(t Task) Result {
 			return Result{"diverged": i, "op": op, "what": "source-buffer"}
 		}
 	}
-	return Result{"ok": true}
+	return Result{"ok": true, "outs": outs}
+}
+
+func shortHash(s string) string {
+	h := sha1.Sum([]byte(s))
+	return hex.EncodeToString(h[:8])
 }
 
 func truncStr(s string, n int) string {
